@@ -156,3 +156,6 @@ func VerifIsFillTablesErr(err error) bool { return err == errFillTables }
 
 // VerifReadTs exposes Txn.readTs.
 func (txn *Txn) VerifReadTs() uint64 { return txn.readTs }
+
+// VerifItemMeta exposes Item.meta.
+func VerifItemMeta(item *Item) byte { return item.meta }
